@@ -124,6 +124,10 @@ JCircleFit(r) ==
        /\ ClauseAll(i, "C09.cfit.recovers", {j \in near : o.res[j].ok},
                     LAMBDA j : /\ Near(o.res[j].cx, r.ctr[1] * QP, TolF) /\ Near(o.res[j].cy, r.ctr[2] * QP, TolF)
                                /\ Near(o.res[j].r, r.R * QP, TolF))
+       \* a fit started from its own result succeeds and returns the same circle (all points weighted)
+       /\ r.sg2 = 0 =>
+            ClauseAll(i, "C09.cfit.refit_from_result", {j \in 1..n : o.res[j].ok /\ o.res[j].finite},
+                      LAMBDA j : o.res[j].refit_ok /\ o.res[j].refit_same)
        \* otherwise (any data, all points weighted): a reported circle is a stationary point of sum (|p-c|-r)^2
        /\ r.sg2 = 0 =>
             ClauseAll(i, "C09.cfit.stationary", {j \in 1..n : o.res[j].ok /\ o.res[j].finite},
